@@ -658,7 +658,10 @@ impl<W, R, T> CompilationScope<'_, W, R, T> {
                 if let Ok(float) = to_parse.parse::<f64>() {
                     return Ok(XStaticExpr::LiteralFloat(float));
                 }
-                panic!("{} is not a number", input.as_str());
+                Err(CompilationError::InvalidNumberLiteral {
+                    literal: input.as_str().to_string(),
+                }
+                .trace(&input))
             }
             Rule::CNAME => {
                 return Ok(XStaticExpr::Ident(interner.get_or_intern(input.as_str())));
